@@ -86,20 +86,24 @@
            in [0, 1]:  (1 + delta19) |b - a| + n eta19 dist + 2 E19max M per
            coordinate, + 4 E19max M Euclidean
            (C19_global_lipschitz_search_ieee,
-            C19_global_lipschitz_ieee_position_at).
+            C19_global_lipschitz_ieee_position_at); and in the progress
+           itself: (1 + delta19) |pb - pa| dist
+           + (n eta19 + 2.001 * 2^-53) dist + 2.001 * 2^-1075 + 2 E19max M
+           (C19_global_lipschitz_ieee_progress).
 
    NOT proved (the property stays PARTIAL): all across-segment IEEE results
    are for the NATURAL lengths of the path (calculate_length without a
    requested length, zero seed).  Not covered: a curve cut or extended to a
    requested length (its last length is the requested one, the last vertex
    the adjusted one: needs C16_adjusted_end_ieee_bound chained in), the osu!
-   Catmull surplus seed (lengths larger than the geometry; chord <= arc holds
-   a fortiori but is not stated), paths with a non-degenerate segment shorter
+   Catmull surplus seed (not stated; the one-step lemma
+   InterpIEEEGlobal.add_increment holds for any non-negative accumulator), paths with a non-degenerate segment shorter
    than 2^-10 or an exact length above 2^40 (2^1000 for the theorems with
    given segment indices), the vertex with l_j = 0 in
    C19_vertex_fraction_position_ieee (progress 0: covered by
-   C19_progress_zero_is_first_vertex), and the last step from |b - a| to
-   |pb - pa| * dist for progresses (one more rounding of the product).  The
+   C19_progress_zero_is_first_vertex), progresses outside [0, 1] in the
+   Lipschitz statements (they are clamped: C19_progress_below_zero_is_clamped,
+   C19_progress_above_one_is_clamped; not chained in).  The
    search oracle of harness/src/c19.rs keeps monitoring with the rounding
    slack 1e-3 + 4e-6 * (magnitude + dist) (4e-6 = 67 * 2^-24), which is wider
    than the proved bounds (7.02 * 2^-24 * magnitude per coordinate and
@@ -1112,3 +1116,24 @@ Proof.
   split; [vm_compute; reflexivity|]. split; vm_compute; reflexivity.
 Qed.
 Print Assumptions C19_search_theorems_example.
+
+(* FAITHFUL ARC-LENGTH PARAMETRISATION in IEEE arithmetic, natural lengths, in
+   the PROGRESS: two finite progresses in [0, 1]; n vertices, coordinates of
+   magnitude <= M, dist = the last computed length.  Compare the exact
+   statement C19_exact_whole_curve: |pos a - pos b| <= |a - b| * total *)
+Theorem C19_global_lipschitz_ieee_progress :
+  forall (path : list Pos) (M : R) (pa pb : F64),
+  Forall (fun p => coord_le p 20) path -> segs_ok path -> (length path <= 2 ^ 50)%nat ->
+  (poly_len (map R2 path) <= Raux.bpow Zaux.radix2 40)%R -> coords_le M path -> (0 <= M)%R ->
+  is_finite pa = true -> is_finite pb = true -> (0 <= B2R pa <= 1)%R -> (0 <= B2R pb <= 1)%R ->
+  let lens := natural path D.zero in
+  let L := Curve.dist lens in
+  let G := ((1 + delta19) * Rabs (B2R pb - B2R pa) * B2R L
+            + (INR (length path) * eta19 + 2.001 * u64) * B2R L + 2.001 * eta64)%R in
+  exists qa qb,
+    position_at path lens pa = Done qa /\ position_at path lens pb = Done qb /\
+    (Rabs (B2R (px qa) - B2R (px qb)) <= G + 2 * E19max M)%R /\
+    (Rabs (B2R (py qa) - B2R (py qb)) <= G + 2 * E19max M)%R /\
+    (edist (R2 qa) (R2 qb) <= G + 4 * E19max M)%R.
+Proof. exact global_lipschitz_progress_ieee. Qed.
+Print Assumptions C19_global_lipschitz_ieee_progress.
